@@ -10,6 +10,7 @@ check at exit 0.  They stand for the maintenance edits a rule must not depend on
   catnames    tn.cat(...) -> tn.concatenate(...), tn.concat(...) -> tn.cat(...)            (aliases of one function)
   flipcmp     a == b -> b == a, a < b -> b > a, ... for single comparisons of side-effect free operands
   ifswap      if c: A else: B  ->  if not c: B else: A   (plain two-branch ifs, no elif)
+  privnames   every private module-level function / class `_name` is renamed `_name_h` throughout the package
 """
 from __future__ import annotations
 
@@ -94,12 +95,59 @@ class IfSwap(ast.NodeTransformer):
         return n
 
 
-REWRITES = {"methods": Methods, "transpose": Transpose, "isinstance": IsInstance, "catnames": CatNames, "flipcmp": FlipCmp, "ifswap": IfSwap}
+class PrivNames(ast.NodeTransformer):
+    """every module-level private function / class `_name` of the package becomes `_name_h` (definitions, references, imports, attribute uses)"""
+    names: set = set()
+
+    def _r(self, x):
+        return x + "_h" if x in self.names else x
+
+    def visit_FunctionDef(self, n):
+        n.name = self._r(n.name)
+        return self.generic_visit(n)
+
+    visit_ClassDef = visit_AsyncFunctionDef = visit_FunctionDef
+
+    def visit_Name(self, n):
+        n.id = self._r(n.id)
+        return n
+
+    def visit_Attribute(self, n):
+        n.attr = self._r(n.attr)
+        return self.generic_visit(n)
+
+    def visit_ImportFrom(self, n):
+        for a in n.names:
+            a.name = self._r(a.name)
+        return n
+
+
+def _private_defs(pkgdir):
+    out = set()
+    for root, _, files in os.walk(pkgdir):
+        for fn in files:
+            if fn.endswith(".py"):
+                try:
+                    import warnings
+                    with warnings.catch_warnings():
+                        warnings.simplefilter("ignore", SyntaxWarning)
+                        tree = ast.parse(open(os.path.join(root, fn)).read())
+                except SyntaxError:
+                    continue
+                for node in tree.body:
+                    if isinstance(node, (ast.FunctionDef, ast.ClassDef)) and node.name.startswith("_") and not node.name.startswith("__"):
+                        out.add(node.name)
+    return out
+
+
+REWRITES = {"privnames": PrivNames, "methods": Methods, "transpose": Transpose, "isinstance": IsInstance, "catnames": CatNames, "flipcmp": FlipCmp, "ifswap": IfSwap}
 
 
 def rewrite_tree(pkgdir: str, which: str) -> int:
     """rewrite every module under pkgdir in place; returns the number of modules changed"""
     cls = REWRITES[which]
+    if which == "privnames":
+        PrivNames.names = _private_defs(pkgdir)
     n = 0
     for root, _, files in os.walk(pkgdir):
         for fn in files:
@@ -108,7 +156,10 @@ def rewrite_tree(pkgdir: str, which: str) -> int:
             p = os.path.join(root, fn)
             src = open(p).read()
             try:
-                tree = ast.parse(src)
+                import warnings
+                with warnings.catch_warnings():
+                    warnings.simplefilter("ignore", SyntaxWarning)
+                    tree = ast.parse(src)
             except SyntaxError:
                 continue
             before = ast.dump(tree)
